@@ -151,10 +151,8 @@ def literal_e2e(garble, seed=1, gogarble="example.com/lit", use_seed=True):
     try:
         if os.path.exists(os.path.join(out, "done.json")):
             return json.load(open(os.path.join(out, "done.json")))
-        for e in os.listdir(root):
-            p = os.path.join(root, e)
-            if os.path.isdir(p):
-                shutil.rmtree(p, ignore_errors=True)
+        vlib.evict_cache_entries(root, key, keep=3)
+        shutil.rmtree(out, ignore_errors=True)
         os.makedirs(out)
         files, items, injected = gen_program(seed)
         proj = e2e.Project("lit-%s" % key, files, module="example.com/lit")
